@@ -3,13 +3,20 @@ use amv::fw::Check;
 pub mod c01_conv;
 pub mod c02_ref;
 pub mod c04_meta;
+pub mod c10_history;
+pub mod c11_saveload;
 pub mod c23_bloom;
+pub mod c28_rollback;
 
 pub fn registry() -> Vec<Box<dyn Check>> {
     vec![
         Box::new(c01_conv::C01),
         Box::new(c02_ref::C02),
         Box::new(c04_meta::C04),
+        Box::new(c10_history::C10),
+        Box::new(c11_saveload::C11),
+        Box::new(c11_saveload::C12),
         Box::new(c23_bloom::C23),
+        Box::new(c28_rollback::C28),
     ]
 }
